@@ -46,7 +46,7 @@ def check(ctx):
         ctx.traces_validated += 3          # three dumps of the real tables evaluated by TLC
         ctx.exhaustive = True
     else:
-        bad = re.findall(r'<<\s*"BAD",\s*"(\w+)",\s*(.*?)>>\s*\n(?=Error|<<)', res.out, re.S)
+        bad = re.findall(r'<<\s*"BAD",\s*"(\w+)",\s*(.*?)>>\s*\n(?=Error|Warning|<<)', res.out, re.S)
         what = "; ".join("%s: %s" % (n, re.sub(r"\s+", " ", b)[:600]) for n, b in bad) or res.out[-800:]
         ctx.violation("information model tables violate %s: %s" % (res.violated, what),
                       {"formula": res.violated, "offending": [[n, re.sub(r"\s+", " ", b)[:2000]] for n, b in bad]})
